@@ -28,8 +28,9 @@ if "error" in r:
     print("case raises:", r["error"]); sys.exit(1)
 bad = False
 if case["kind"] == "beam":
-    print("errors per unknown", r["err"], "scale", r["scale"])
-    bad = max(r["err"].values()) > 1e-9 * r["scale"]
+    print("nodal errors per unknown", r["err"], "scale", r["scale"])
+    print("relative errors of the reported constants", r["post"])
+    bad = max(r["err"].values()) > 1e-9 * r["scale"] or max(list(r["post"].values()) + [0.0]) > 1e-9
 else:
     print("interior nodes:", r["n_interior"], " max |u - u_lin| =", r["err_u_interior"], " scale", r["scale_u"])
     bad = not (r["err_u_interior"] <= 1e-9 * r["scale_u"])
@@ -39,6 +40,12 @@ else:
         bad = bad or r["err_strain_comp"] > 1e-9 * r["scale_strain"] or r["err_stress_comp"] > 1e-9 * r["scale_stress"] \
             or abs(r["Wdef"] - r["Wdef_exact"]) > 1e-9 * abs(r["Wdef_exact"]) \
             or r["err_Strain_plain"] > 1e-9 * r["scale_strain"] or r["err_Stress_plain"] > 1e-9 * r["scale_stress"]
+        if "remap_err_u" in r:
+            print("after a near-identity rotation (nodes moved by", r["remap_moved"], "): nodes", r["remap_err_u"], "strain", r["remap_err_strain"], "stress", r["remap_err_stress"], "Wdef", r["remap_Wdef"])
+            bad = bad or r["remap_err_u"] > 1e-9 * r["scale_u"] or r["remap_err_strain"] > 1e-9 * r["scale_strain"] or r["remap_err_stress"] > 1e-9 * r["scale_stress"] \
+                or abs(r["remap_Wdef"] - r["Wdef_exact"]) > 1e-9 * abs(r["Wdef_exact"]) \
+                or abs(r["remap_Wdef_new"] - r["remap_Wdef_new_exact"]) > 1e-9 * abs(r["remap_Wdef_new_exact"]) or r["remap_measure_err"] > 1e-9
+            print("  second map (affine, new simulation): Wdef", r["remap_Wdef_new"], "exact", r["remap_Wdef_new_exact"], "measure error", r["remap_measure_err"])
 sys.exit(1 if bad else 0)
 '''
 
@@ -133,6 +140,12 @@ def gen_cases(ctx, E):
                 continue
             lw, par = law(dim)
             cases.append(dict(c, phys="elastic", law=lw, params=par))
+            if lw == "isotropic" and E[et]["nPe"] <= 10:
+                # second solve on the same objects after a near-identity rotation (angle ~6e-5 deg), third with a new
+                # simulation after a near-identity shear+stretch through mesh.coord
+                cases[-1]["remap"] = [rng.uniform(3e-5, 9e-5), [0.0, 0.0, 1.0] if dim == 2 else [0.3, -0.5, 0.8]]
+                # every coordinate O(1), away from the coordinate planes: the maps are RELATIVE changes of ~1e-6
+                cases[-1]["b"] = [rng.uniform(3, 4) for _ in range(dim)]
             if rep == 0 and (not quick or E[et]["order"] <= 2):
                 cases.append(dict(c, phys="thermal", params={"k": rng.uniform(0.5, 5), "c": 1.0, "thickness": 0.8}, field_seed=rng.randrange(10**6)))
         A, b = affine(2)
@@ -161,11 +174,23 @@ def gen_cases(ctx, E):
         A, b = affine(3)
         cases.append({"kind": "gmsh", "elem": "TETRA4", "dim": 3, "L": 2.0, "H": 1.0, "D": 1.0, "layers": 29, "size": 0.0348, "A": A, "b": b, "large": True,
                       "perm_seed": rng.randrange(10**6), "field_seed": rng.randrange(10**6), "phys": "thermal", "params": {"k": 2.0, "c": 1.0}})
+    sg = lambda a, b: rng.uniform(a, b) * rng.choice([-1, 1])
     for et in ("SEG2", "SEG3", "SEG4", "SEG5"):
         for bd in (1, 2, 3):
             for timo in (False, True):
-                cases.append({"kind": "beam", "elem": et, "beamDim": bd, "timo": timo, "L": rng.uniform(5, 15), "n": rng.randint(2, 5),
-                              "b": 0.3, "h": 0.5, "E": rng.uniform(100, 300), "v": 0.3, "axial": rng.uniform(-2e-3, 2e-3), "curv": rng.uniform(-3e-3, 3e-3)})
+                base = {"kind": "beam", "elem": et, "beamDim": bd, "timo": timo, "n": rng.randint(2, 5), "b": 0.3, "h": 0.5,
+                        "E": rng.uniform(100, 300), "v": 0.3, "axial": sg(5e-4, 2e-3), "curv": sg(5e-4, 3e-3),
+                        "curv_y": sg(5e-4, 3e-3), "twist": sg(5e-4, 3e-3)}
+                cases.append(dict(base, L=rng.uniform(5, 15), orient="x-axis"))
+                if bd >= 2:
+                    # inclined in the plane / in space; for dim 3 also a user yAxis not perpendicular to the fibre
+                    p1 = [rng.uniform(-1, 1), rng.uniform(-1, 1), rng.uniform(-1, 1) if bd == 3 else 0.0]
+                    d = [rng.uniform(3, 7), sg(2, 6), sg(2, 6) if bd == 3 else 0.0]
+                    c = dict(base, p1=p1, p2=[a + b for a, b in zip(p1, d)], orient="inclined")
+                    if bd == 3 and rng.random() < 0.5:
+                        c["yAxis"] = [rng.uniform(-1, 1), rng.uniform(0.5, 1.5), rng.uniform(-1, 1)]
+                        c["orient"] = "inclined-user-yAxis"
+                    cases.append(c)
     return cases
 
 
@@ -222,7 +247,7 @@ def run(ctx):
     for c, r in zip(cases, results):
         n = c["elem"]
         kind = c["kind"]
-        tag = "%s:%s:%s" % (kind, c.get("phys", "beam"), n) + (":dim%d:%s" % (c["beamDim"], "timoshenko" if c["timo"] else "euler-bernoulli") if kind == "beam" else ":" + c.get("law", ""))
+        tag = "%s:%s:%s" % (kind, c.get("phys", "beam"), n) + (":dim%d:%s:%s" % (c["beamDim"], "timoshenko" if c["timo"] else "euler-bernoulli", c["orient"]) if kind == "beam" else ":" + c.get("law", ""))
         dist[tag.split(":")[0] + ":" + tag.split(":")[1]] = dist.get(tag.split(":")[0] + ":" + tag.split(":")[1], 0) + 1
         rep = {"replay_py": REPLAY % dict(case=json.dumps(c)), "case": c}
         if "error" in r:
@@ -241,11 +266,13 @@ def run(ctx):
         ctx.note_case(tag if r.get("n_interior", 0) > 0 else None)
         if kind == "beam":
             worst = max(r["err"].values()) / r["scale"]
-            margins.append(worst)
-            ok = worst <= TOL
-            ctx.obligation("beam: constant axial strain and curvature reproduced (%s)" % tag, ok, "rel err %.2e" % worst)
+            wpost = max(list(r["post"].values()) + [0.0])
+            margins.append(max(worst, wpost))
+            ok = worst <= TOL and wpost <= TOL
+            ctx.obligation("beam: constant axial strain, curvatures (both planes) and twist reproduced, reported constants exact (%s)" % tag, ok, "nodes %.2e, results %.2e" % (worst, wpost))
             if not ok:
-                ctx.violation("patch:" + tag, "%s: constant axial strain / curvature field not reproduced at the nodes: errors %s (scale %.3g)" % (tag, r["err"], r["scale"]), rep, True)
+                ctx.violation("patch:" + tag, "%s: constant axial strain / curvature / twist field not reproduced: nodal errors %s (scale %.3g); relative errors of the reported constants %s" % (
+                    tag, {k: "%.2e" % v for k, v in r["err"].items()}, r["scale"], {k: "%.2e" % v for k, v in r["post"].items() if v > TOL}), rep, True)
             continue
         checks = [("interior nodes", r["err_u_interior"] / r["scale_u"])]
         # the hypothesis of patch_equilibrium_partial, evaluated on this mesh
@@ -255,6 +282,12 @@ def run(ctx):
                        ("Result('Strain')", r["err_Strain_plain"] / r["scale_strain"] if r["err_Strain_plain"] is not None else float("inf")),
                        ("Result('Stress')", r["err_Stress_plain"] / r["scale_stress"] if r["err_Stress_plain"] is not None else float("inf")),
                        ("Wdef", abs(r["Wdef"] - r["Wdef_exact"]) / abs(r["Wdef_exact"]))]
+            if "remap_err_u" in r:
+                checks += [("after near-identity rotation: nodes", r["remap_err_u"] / r["scale_u"]), ("after near-identity rotation: strain", r["remap_err_strain"] / r["scale_strain"]),
+                           ("after near-identity rotation: stress", r["remap_err_stress"] / r["scale_stress"]),
+                           ("after near-identity rotation: Wdef", abs(r["remap_Wdef"] - r["Wdef_exact"]) / abs(r["Wdef_exact"])),
+                           ("after near-identity affine map, new simulation: Wdef", abs(r["remap_Wdef_new"] - r["remap_Wdef_new_exact"]) / abs(r["remap_Wdef_new_exact"])),
+                           ("after near-identity affine map: mesh measure", r["remap_measure_err"])]
         bad = [(nm, v) for nm, v in checks if not (v <= TOL)]
         margins.append(max(v for _, v in checks))
         ctx.obligation("patch test (%s)" % tag, not bad, "; ".join("%s %.2e" % x for x in checks))
